@@ -15,6 +15,7 @@ H_i0U == [tr |-> 0, sp |-> 0, fl |-> 0]         \* invalid: no ids, unsampled fl
 MC_NoHeaders == {}
 MC_Forms == {"value", "ref", "option", "box", "arc", "dyn", "ambient"}
 \* invalid / partial headers; with the sampled-trace filter installed only those with the sampled flag
+MC_HeadersAllInv == {H_s1, H_u1, H_s1b, H_s2, H_u2, H_i0, H_iS, H_tS, H_tU, H_iSU, H_i0U}
 MC_HeadersInvS == {H_s1, H_u2, H_i0, H_iS, H_tS}
 MC_HeadersInv == {H_s1, H_tS, H_tU, H_iSU, H_i0U}
 ASSUME PrintT(<<"FORMS", ToJson(CtxForms)>>)
